@@ -50,7 +50,12 @@ func (u *Unit) funcValue(f *ssa.Function) Term {
 		id = len(u.w.globalIDs) + 1
 		u.w.globalIDs[name] = id
 	}
-	return MkLoc(IntLit(int64(-id)), IntLit(0))
+	t := MkLoc(IntLit(int64(-id)), IntLit(0))
+	if _, seen := u.fnConsts[t.S]; !seen {
+		u.fnConsts[t.S] = f
+		u.fnConstOrder = append(u.fnConstOrder, t)
+	}
+	return t
 }
 
 func (fr *Frame) constTerm(c *ssa.Const) Term {
@@ -328,6 +333,9 @@ func (fr *Frame) execInstr(in ssa.Instruction, st *State) *State {
 		a := MkLoc(o, IntLit(0))
 		fr.zeroInit(st, derefType(x.Type()), a)
 		fr.setReg(x, a)
+		if !u.allocEscapes(x) && u.rec == nil {
+			u.localCells = append(u.localCells, localCell{addr: fr.regs[x], typ: derefType(x.Type())})
+		}
 		switch x.Comment {
 		case "", "varargs", "slicelit", "complit", "makeslice", "new", "arraylit", "maplit":
 		default:
@@ -801,21 +809,13 @@ func (fr *Frame) execIndexAddr(x *ssa.IndexAddr, st *State) *State {
 		}
 		u.oblige(fr, "index", x.Pos(), fr.srcText(x.Pos(), "index"), st.pc, And(Le(IntLit(0), iv), Lt(iv, SLen(xv))), false)
 		sz := w.sizeOf(xt.Elem())
-		off := iv
-		if sz != 1 {
-			off = Mul(iv, IntLit(int64(sz)))
-		}
-		fr.setReg(x, Elem(SPtr(xv), off))
+		fr.setReg(x, ElemS(SPtr(xv), iv, int64(sz)))
 	case *types.Pointer: // pointer to array
 		at := xt.Elem().Underlying().(*types.Array)
 		u.oblige(fr, "nil-deref", x.Pos(), fr.srcText(x.Pos(), "index"), st.pc, Neq(xv, NilLoc), false)
 		u.oblige(fr, "index", x.Pos(), fr.srcText(x.Pos(), "index"), st.pc, And(Le(IntLit(0), iv), Lt(iv, IntLit(at.Len()))), false)
 		sz := w.sizeOf(at.Elem())
-		off := iv
-		if sz != 1 {
-			off = Mul(iv, IntLit(int64(sz)))
-		}
-		fr.setReg(x, Elem(xv, off))
+		fr.setReg(x, ElemS(xv, iv, int64(sz)))
 	default:
 		fr.regs[x] = u.fresh(fr.vname(x), SLoc)
 	}
@@ -877,12 +877,8 @@ func (fr *Frame) execSlice(x *ssa.Slice, st *State) *State {
 		}
 		u.oblige(fr, "slice-bounds", x.Pos(), text, st.pc, And(Le(IntLit(0), lo), Le(lo, hi), Le(hi, mx), Le(mx, SCap(xv))), false)
 		sz := w.sizeOf(xt.Elem())
-		off := lo
-		if sz != 1 {
-			off = Mul(lo, IntLit(int64(sz)))
-		}
 		// Go: if the result has capacity 0 the pointer may be anything; keep base
-		fr.setReg(x, MkSlice(Elem(SPtr(xv), off), Sub(hi, lo), Sub(mx, lo)))
+		fr.setReg(x, MkSlice(ElemS(SPtr(xv), lo, int64(sz)), Sub(hi, lo), Sub(mx, lo)))
 	case *types.Pointer: // *[N]T
 		at := xt.Elem().Underlying().(*types.Array)
 		n := IntLit(at.Len())
@@ -905,11 +901,7 @@ func (fr *Frame) execSlice(x *ssa.Slice, st *State) *State {
 			return st
 		}
 		sz := w.sizeOf(at.Elem())
-		off := lo
-		if sz != 1 {
-			off = Mul(lo, IntLit(int64(sz)))
-		}
-		fr.setReg(x, MkSlice(Elem(xv, off), Sub(hi, lo), Sub(mx, lo)))
+		fr.setReg(x, MkSlice(ElemS(xv, lo, int64(sz)), Sub(hi, lo), Sub(mx, lo)))
 	default:
 		fr.regs[x] = u.fresh(fr.vname(x), w.sortOf(x.Type()))
 	}
@@ -919,6 +911,11 @@ func (fr *Frame) execSlice(x *ssa.Slice, st *State) *State {
 // arrayBytes builds the Str holding bytes [lo,hi) of the byte array at address a.
 func (fr *Frame) arrayBytes(st *State, a Term, at *types.Array, lo, hi Term) Term {
 	u := fr.u
+	if at.Len() == 1 && lo.S == "0" && hi.S == "1" {
+		// canonical single-byte string, so that append(k, b) and k + "<b>" are the same term
+		c := u.w.typeCell(at.Elem(), a)
+		return mk(SStr, "s.byte", fr.loadLeaf(st, c))
+	}
 	s := u.fresh("arrbytes", SStr)
 	u.assume(True, Eq(StrLen(s), Sub(hi, lo)))
 	n := int(at.Len())
